@@ -155,8 +155,8 @@ M('C03', 'OperatorLeftScalarMult oop arm returns nothing', OPR,
   "            self.operator(x, out=out)\n            out *= self.scalar",
   'OperatorLeftScalarMult._call')
 M('C03', 'OperatorVectorSum consumes out', OPR,
-  "        else:\n            self.operator(x, out=out)\n\n        out += self.vector",
-  "        else:\n            pass\n\n        out += self.vector",
+  "        else:\n            self.operator(x, out=out)\n            out += self.vector",
+  "        else:\n            pass\n            out += self.vector",
   'OperatorVectorSum._call')
 M('C03', 'OperatorComp returns temporary', OPR,
   "            self.right(x, out=tmp)\n            return self.left(tmp, out=out)",
